@@ -482,6 +482,18 @@ KANI_U1_PULL = [
     {'name': 'validator::cbor_value::verif_kani::push_then_pull_returns_the_header', 'kind': 'complete',
      'label': 'ciborium-ll:push-then-pull-roundtrip', 'functions': ['ciborium_ll::Decoder::push', 'ciborium_ll::Decoder::pull'],
      'clause': 'pull after push returns the pushed header (non-float) and leaves the offset unchanged'},
+    {'name': 'validator::cbor_value::verif_kani::integer_conversions_match_assumed_contract', 'kind': 'complete',
+     'label': 'ciborium:integer-conversions-equal-assumed-contract', 'functions': ['ciborium::value::Integer::from', 'Integer::try_from(i128)'],
+     'clause': 'i128::from(Integer::from(u64/i64)) is the value; Integer::try_from(i128) is Ok exactly on -2^64 .. 2^64-1 and keeps the value (full domain, loop-free)'},
+    {'name': 'validator::cbor_value::verif_kani::header_eq_break_matches_assumed_contract', 'kind': 'complete',
+     'label': 'ciborium-ll:header-eq-break', 'functions': ['<ciborium_ll::Header as PartialEq>::eq'],
+     'clause': 'h == Header::Break <=> h is Break, for every Header (full domain)'},
+    {'name': 'validator::cbor_value::verif_kani::read_exact_matches_assumed_contract', 'kind': 'bounded', 'bound': 'input <= 6 bytes, buffer <= 4 bytes',
+     'label': 'ciborium-ll:read_exact-equals-assumed-contract', 'functions': ['<ciborium_ll::Decoder as ciborium_io::Read>::read_exact'],
+     'clause': 'fills the buffer with the next bytes and advances by its length, Err exactly when fewer bytes remain'},
+    {'name': 'validator::cbor_value::verif_kani::from_utf8_accepts_exactly_valid_utf8', 'kind': 'bounded', 'bound': 'byte strings of length <= 5',
+     'label': 'core:from_utf8-accepts-exactly-valid-utf8', 'functions': ['core::str::from_utf8'],
+     'clause': 'from_utf8(s).is_ok() <=> s is valid UTF-8 (Unicode Table 3-7 transcription)'},
 ]
 
 KANI_U2 = [
@@ -661,7 +673,7 @@ PROPS = {
         'witness': witness_u1,
         'technique': 'Verus function contracts + loop invariants + unfolding lemmas on the real decoder functions (mechanical extraction, real ciborium types), against an RFC 8949 spec function; assumed contract for ciborium-ll Decoder',
         'level_text': 'Deductive proof (Verus/Z3, no bound on input length, nesting or loop iterations) that decode_cbor returns Ok exactly when the input begins with a well-formed RFC 8949 item whose text strings are valid UTF-8 (truncation, reserved additional information 28-30, 31 on major types 0/1/6, stray break, wrong-type or indefinite chunks => Err) and that the returned Value is the item data-model value (full 64-bit uint/nint range, floats as delivered by the head, tags, simple values, concatenated chunks, arrays/maps in encoded order with duplicates kept). All of decode_cbor, decode_value, check_simple_width, read_exact_len, read_bytes, read_text, decode_array, decode_map are under contract; termination is proved. Eight functions are under contract (check_simple_width added by fix F2). Defects found by this unit and repaired: F1 (indefinite chunk inside an indefinite string), F2 (f8 14 accepted), F3 (allocation from the wire length).',
-        'level_note': 'Trusted: Verus+Z3; vstd specs of Vec/String/Box; ASSUMED contracts (listed in evidence.trusted_base): ciborium-ll Decoder::pull/push/offset/read_exact over an in-memory byte source (pull = RFC head parse mapped to Header - this one is CROSS-CHECKED on every run by a complete Kani harness that executes the real ciborium-ll 0.2.2 pull/push on 9 symbolic bytes against an executable transcription of the spec head/hdr_of; the transcription Verus spec <-> Rust twin is by hand), Decoder::from, Cursor::new, Header == Break, ciborium Integer::from(u64/i64)/try_from(i128), String::from_utf8 (Ok <=> valid UTF-8), UTF-8 encoding distributes over concatenation, 64-bit usize, half/f32->f64 widening inside pull (uninterpreted). Extraction rewrites R1 (closure/for `_` names), R2 (map_err inlined to match), R3, R4 (simple::* constants re-declared and pinned by static assertions). Stack depth of the recursion is not modelled.',
+        'level_note': 'Trusted: Verus+Z3; vstd specs of Vec/String/Box; ASSUMED contracts (listed in evidence.trusted_base): ciborium-ll Decoder::pull/push/offset/read_exact over an in-memory byte source (pull = RFC head parse mapped to Header - CROSS-CHECKED on every run by Kani harnesses that execute the real dependency code against executable transcriptions of the assumed contracts: pull/push on 9 symbolic bytes (complete), Integer::from/try_from and Header == Break (complete, full domain), read_exact (inputs <= 6 bytes) and from_utf8 (<= 5 bytes) bounded; the transcription Verus spec <-> Rust twin is by hand), Decoder::from, Cursor::new, Header == Break, ciborium Integer::from(u64/i64)/try_from(i128), String::from_utf8 (Ok <=> valid UTF-8), UTF-8 encoding distributes over concatenation, 64-bit usize, half/f32->f64 widening inside pull (uninterpreted). Extraction rewrites R1 (closure/for `_` names), R2 (map_err inlined to match), R3, R4 (simple::* constants re-declared and pinned by static assertions). Stack depth of the recursion is not modelled.',
         'design_ref': 'DESIGN.md 4 U1',
         'scope': 'decode_cbor and the six functions below it in src/validator/cbor_value.rs',
         'assumptions': ['the reader behind the Decoder is an in-memory byte source (std::io::Cursor<&[u8]>, the only instantiation in the crate)'],
